@@ -27,6 +27,18 @@ type graph struct {
 	// successThresholdSinks specifies how many sinks must successfully process
 	// an event for Process to not return an error.
 	successThresholdSinks int
+
+	// thresholdLock guards successThreshold and successThresholdSinks: process
+	// reads them after Send has released the Broker's lock, concurrently with
+	// the Broker's threshold setters.
+	thresholdLock sync.RWMutex
+}
+
+// thresholds returns the success thresholds currently configured for the graph.
+func (g *graph) thresholds() (successThreshold, successThresholdSinks int) {
+	g.thresholdLock.RLock()
+	defer g.thresholdLock.RUnlock()
+	return g.successThreshold, g.successThresholdSinks
 }
 
 // Process the Event by routing it through all of the graph's nodes,
@@ -68,7 +80,8 @@ func (g *graph) process(ctx context.Context, e *Event) (Status, error) {
 			}
 		}
 	}
-	return status, status.getError(ctx.Err(), g.successThreshold, g.successThresholdSinks)
+	successThreshold, successThresholdSinks := g.thresholds()
+	return status, status.getError(ctx.Err(), successThreshold, successThresholdSinks)
 }
 
 // Recursively process every node in the graph.
